@@ -41,6 +41,7 @@ AS_VARIANTS = [
     {"zoo": "Z9", "same_shape": True},
     {"zoo": "Z9", "rotational": True},
     {"zoo": "Z10"},
+    {"zoo": "Z10", "no_reserve": True},
     {"zoo": "Z11", "compressible": True},
     {"zoo": "Z11", "ground": True},
     {"zoo": "Z12", "wingbox": False},
